@@ -88,6 +88,21 @@ std::string pathJson(const std::string& rel) {
   return J::strArr(parts);
 }
 
+std::string pathCharsJson(const std::string& rel) {
+  std::vector<std::string> comps;
+  std::string cur;
+  auto flush = [&] {
+    if (cur.empty()) return;
+    std::vector<std::string> cs;
+    for (char c : cur) cs.push_back(J::quote(std::string(1, c)));
+    comps.push_back(J::arr(cs));
+    cur.clear();
+  };
+  for (char c : rel) { if (c == '/') flush(); else cur += c; }
+  flush();
+  return J::arr(comps);
+}
+
 static void abortWith(const char* why, const std::string& detail) {
   // Not async-signal-safe in the strict sense, but the process is dying anyway and the
   // alternative (a truncated trace) would hide the crash from the specification.
